@@ -169,6 +169,45 @@ fn names(ctx: &mut Ctx, s: &str) {
     }
 }
 
+/// All strings of exactly 4 bytes built from ASCII name characters and 2-, 3- and 4-byte characters in
+/// every arrangement (1+1+2, 1+2+1, 2+1+1, 2+2, 1+3, 3+1, 4), plus the same with 2..=3 and 5..=6 bytes.
+pub fn four_byte_utf8_strings() -> Vec<String> {
+    let ascii = ['A', 'B', 'C', 'P', 'T', 'M', 'S', 'R', 'V', 'X', 'F', '0', '1', '9', 'a', 'g'];
+    let two = ['é', 'ß', '¹', '٣'];
+    let three = ['€', '中', '１'];
+    let four = ['😀', '\u{10FFFF}'];
+    let mut out = Vec::new();
+    for a in ascii {
+        for b in ascii {
+            for t in two {
+                out.push([a, b, t].iter().collect());
+                out.push([a, t, b].iter().collect());
+                out.push([t, a, b].iter().collect());
+                out.push([a, b, a, t].iter().collect()); // 5 bytes
+            }
+        }
+        for t in three {
+            out.push([a, t].iter().collect());
+            out.push([t, a].iter().collect());
+            out.push([a, a, t].iter().collect()); // 5 bytes
+            out.push([t].iter().collect()); // 3 bytes
+        }
+        for t in two {
+            out.push([a, t].iter().collect()); // 3 bytes
+            out.push([t, a].iter().collect());
+        }
+    }
+    for t in two {
+        for u in two {
+            out.push([t, u].iter().collect());
+        }
+    }
+    for f in four {
+        out.push([f].iter().collect());
+    }
+    out
+}
+
 const VALS8: [u8; 8] = [0, 1, 2, 0x7F, 0x80, 0xFD, 0xFE, 0xFF];
 
 /// every single-byte overwrite (8 values), single-bit flip, truncation and extension of a seed
@@ -548,6 +587,13 @@ fn run(ctx: &mut Ctx) {
         let k = rng.usize(ch.len());
         ch[k] = *rng.pick(&['é', '中', '😀', '１']);
         names(ctx, &ch.iter().collect::<String>());
+    });
+    // every way a 4-byte string can be cut by multi-byte characters (char boundaries at each offset)
+    ctx.cases("utf8-4byte", 1, |ctx, _i, _rng| {
+        for s in four_byte_utf8_strings() {
+            names(ctx, &s);
+            ctx.count("4-byte strings with multi-byte characters parsed");
+        }
     });
     // ---- (vii) id conversions, exhaustively where the domain is small
     ctx.cases("ids", 16, |ctx, part, rng| {
